@@ -97,7 +97,12 @@ func runPlot(t *simrt.Tape, keep bool) simrt.Outcome {
 	dir := simTempDir()
 	// ---- results of 1..3 attacks with contiguous sequence numbers and timestamps ordered like them (C05) ----
 	nattacks := 1 + t.Biased(3, 1, 2)
-	names := []string{"", "50qps", "100qps"}
+	// attack names: unrelated ones, and names that are prefixes of one another (series and their labels are
+	// sorted by name at several places)
+	pool := []string{"", "50qps", "100qps", "test", "testB", "testA", "test-1", "api", "apiGW", "load", "load:", "x: ERROR", "Z", "a", "a b", "E"}
+	// three distinct names (no rejection loop: an exhausted replay tape answers 0 for ever)
+	start, stride := t.Choose(len(pool)), []int{1, 3, 5, 7}[t.Choose(4)]
+	names := []string{pool[start%len(pool)], pool[(start+stride)%len(pool)], pool[(start+2*stride)%len(pool)]}
 	base := time.Unix(1700000000, 0).Add(time.Duration(t.Choose(1000000000)))
 	var all []vegeta.Result
 	perAttack := map[string][]vegeta.Result{}
